@@ -34,6 +34,14 @@ def instances(tier, seed):
             call=f"crate::c18::vec_znx_roundtrip::<{bool_rs(big)}>()", unwind=100, params={"type": "VecZnx", "receiver": "larger" if big else "equal capacity"},
             symbolic=["object content", "prior receiver content"], stubs=STUBS,
             functions=[f"{H}/vec_znx.rs::write_to/read_from"], timeout=900, core=True))
+    CS = [("std::fmt::format", "crate::stubs::fmt_stub")]
+    for which, tname, hdr in ((0, "GLWE", 4), (1, "LWE", 4), (2, "GLWECompressed", 40)):
+        for sl in sorted({0, 3, 4, 5, hdr, hdr + 8, hdr + 39, hdr + 40, hdr + 41, hdr + 40 + 32, hdr + 40 + 64}):
+            out.append(Instance(
+                crate="hk_core", family=f"ser.core.{tname}.read", name=f"c18_core_{tname}_len{sl}", call=f"crate::c18_core::wrapper_read::<{which}, {sl}>()", unwind=max(sl, 40) + 8,
+                params={"type": tname, "stream_len": sl}, symbolic=["every stream byte"], stubs=CS,
+                functions=[f"poulpy-core/src/layouts/{'compressed/glwe' if which == 2 else tname.lower()}.rs::<{tname} as ReaderFrom>::read_from"], timeout=1200, mem_gb=16,
+                core=sl in (4, hdr + 8, hdr + 40)))
     for two in (False, True):
         out.append(Instance(
             crate="hk_hal", family="ser.vec_znx.reuse", name=f"c18_vec_znx_reuse_{'two_reads' if two else 'slack'}",
@@ -45,7 +53,7 @@ def instances(tier, seed):
 
 META = {
     "bounds": "receivers: VecZnx n=2,cols=1,size 1 of max 2 (32 B); ScalarZnx n=2,cols=1; MatZnx n=2,1x1x1,size 1; stream length enumerated (every field boundary +-1, payload boundaries), every stream byte symbolic",
-    "outside": "poulpy-core / poulpy-bin-fhe wrapper readers (see evidence 'outside_claim' of this run), larger receivers",
+    "outside": "poulpy-core wrappers other than GLWE/LWE/GLWECompressed, poulpy-bin-fhe key readers, larger receivers",
     "assumptions": ["std::fmt::format replaced by an empty-string stub (error messages only)", "io::Result values are mem::forget-ed in the harness"],
     "stubs": ["std::fmt::format -> crate::c18::fmt_stub"],
 }
